@@ -53,7 +53,17 @@ def fresh_decode(ctx: Ctx, chk) -> None:
     a1 = c.args[1] if len(c.args) > 1 else None
     if isinstance(a1, ast.Name) and got == a1.id:
         # `message = load(...)` ... `message = await handler(self, message, ...)`: the binding that reaches the dispatch
-        cands = [v for v in (ctx.I.local_assigns(listen).get(a1.id) or []) if isinstance(v, ast.expr) and not any(x is c for x in ast.walk(v)) and v.lineno <= c.lineno]
+        pos_ = {id(x): i_ for i_, x in enumerate(ast.walk(listen.node))}  # written-out code keeps the lines of its definition: order by position in the tree
+        pre_ = []
+
+        def _walk(n_):
+            pre_.append(n_)
+            for ch_ in ast.iter_child_nodes(n_):
+                _walk(ch_)
+
+        _walk(listen.node)
+        pos_ = {id(x): i_ for i_, x in enumerate(pre_)}
+        cands = [v for v in (ctx.I.local_assigns(listen).get(a1.id) or []) if isinstance(v, ast.expr) and not any(x is c for x in ast.walk(v)) and pos_.get(id(v), 0) <= pos_.get(id(c), 0)]
         if len(cands) == 1:
             got = cn.canon(cands[0])
     want = "self._message_schema.load(self.transport.read())"
